@@ -1,0 +1,16 @@
+//go:build verif
+// +build verif
+
+package pipe
+
+// Verification export for property C07 (harness sections busystop / ack). Pure addition, tag `verif` only.
+
+// VerifC07Closing tells whether Shutdown has begun (the service context is cancelled; workers are being waited for).
+func (s *Service) VerifC07Closing() bool {
+	select {
+	case <-s.closedCh:
+		return true
+	default:
+		return false
+	}
+}
